@@ -96,14 +96,14 @@ class Child:
 
     def gates(self, names):
         self.conn.send(("gates", list(names)))
-        return self._reply(5)
+        return self._reply(300)
 
-    def call(self, name, *args, timeout=10):
+    def call(self, name, *args, timeout=300):
         assert self.at_gate is None, "child is blocked at a gate"
         self.conn.send(("call", name, args))
         return self._reply(timeout)
 
-    def release(self, timeout=10):
+    def release(self, timeout=300):
         assert self.at_gate is not None
         self.conn.send(("go",))
         return self._reply(timeout)
